@@ -63,7 +63,7 @@ func c03JSONResult(resp []byte) (hasResult bool, isNullOrEmpty bool, errObj any)
 func TestVerifC03(t *testing.T) {
 	rec := ev.New("C03", "absent-keys")
 	defer rec.Flush()
-	rec.Rule("absent keys whose truncated in-bucket hash collides with a stored key (found with the index's own lookup) requested through JSON-RPC/gRPC getBlock, getTransaction (1 and 3 epochs loaded; also against an epoch whose transaction payloads are all split into several frames), getSignaturesForAddress, GetNodeByCid; plus slots of epochs that are not loaded; plus 16 goroutines issuing present/absent-key requests with their own ids at once (each must get its own answer); distinct = distinct colliding absent keys per (index, surface)")
+	rec.Rule("absent keys whose truncated in-bucket hash collides with a stored key (found with the index's own lookup) requested through JSON-RPC/gRPC getBlock, getTransaction (1 and 3 epochs loaded; also against an epoch whose transaction payloads are all split into several frames), getSignaturesForAddress, GetNodeByCid; plus slots of epochs that are not loaded; plus, on a server whose three epochs share one cache, every slot with the same in-epoch index as a just-served block of another epoch (answer cold = answer warm, never a block for an absent slot); plus 16 goroutines issuing present/absent-key requests with their own ids at once (each must get its own answer); distinct = distinct colliding absent keys per (index, surface)")
 	seed := ev.Seed()
 	rng := rand.New(rand.NewSource(seed ^ 0xC03))
 	root := filepath.Join(ev.Scratch(), "c03")
@@ -164,6 +164,44 @@ func TestVerifC03(t *testing.T) {
 				rec.Count("diag_api_slot_to_cid_answers_absent_slot", 1)
 			}
 		}
+	}
+
+	// ---------------- (1c) the slot-to-CID cache is shared by every loaded epoch: the answer for a slot must not
+	// depend on whether the slot with the same index *in another epoch* was requested before (a key that drops
+	// the epoch would hand epoch B the CID of epoch A's block).  Differential oracle on one server: ask s2
+	// cold, ask the same-index slot s of the main epoch (which fills the cache), ask s2 again.
+	{
+		multiX, _, hX := load(fxs...)
+		_ = multiX
+		n := 0
+		for _, b := range m.Blocks {
+			if n >= ev.Pick(120, 600) || rec.Enough() {
+				break
+			}
+			n++
+			for _, f := range fxs[1:] {
+				s2 := f.Model.Epoch*cargen.SlotsPerEpoch + (b.Slot - base)
+				_, absent := f.Model.BySlot[s2]
+				absent = !absent
+				body := fmt.Sprintf(`{"jsonrpc":"2.0","id":7,"method":"getBlock","params":[%d,{"encoding":"base64","transactionDetails":"signatures"}]}`, s2)
+				rec.Eval(2)
+				_, cold := vfCall(hX, body)
+				vfCall(hX, fmt.Sprintf(`{"jsonrpc":"2.0","id":8,"method":"getBlock","params":[%d,{"encoding":"base64","transactionDetails":"signatures"}]}`, b.Slot))
+				_, warm := vfCall(hX, body)
+				if !bytes.Equal(cold, warm) {
+					w := c03Witness{Seed: seed, Fixture: "main+sides", Surface: "jsonrpc/getBlock", Slot: s2, Loaded: 3}
+					rec.Violation(fmt.Sprintf("jsonrpc/getBlock/answer-changes-after-same-index-slot-of-another-epoch/absent=%v", absent), fmt.Sprintf("getBlock(%d) answered %.120s; after getBlock(%d) (same index, epoch %d) it answers %.120s", s2, cold, b.Slot, m.Epoch, warm), w)
+				}
+				if absent {
+					if has, empty, _ := c03JSONResult(warm); has && !empty {
+						w := c03Witness{Seed: seed, Fixture: "main+sides", Surface: "jsonrpc/getBlock", Slot: s2, Loaded: 3}
+						rec.Violation("jsonrpc/getBlock/absent-slot-answered-with-a-block", fmt.Sprintf("slot %d has no block but getBlock returned one after slot %d of epoch %d was served: %.160s", s2, b.Slot, m.Epoch, warm), w)
+					}
+				}
+				rec.Distinct(fmt.Sprintf("same-index/%d/absent=%v", s2, absent))
+			}
+		}
+		rec.Count("same_index_cross_epoch_pairs", n*(len(fxs)-1))
 	}
 
 	// ---------------- (2) absent signatures colliding in sig-to-cid
